@@ -11,29 +11,27 @@
    2b. every bad entry with a recorded hash (BLK, REP) that repair accepts holds a block that passes the recorded hash.
    3. the stripe step on ANY stripe and ANY state (plain options, fix): a name that is not the file of the stripe at its disk is
       not touched; a file of the stripe is renamed away at its last block when flagged DAMAGED, or keeps every other block inside
-      its recorded size; the block of the stripe is the block before the step or a rebuilt block x written zero padded -- and then
-      the file is flagged DAMAGED, or: for a CHG block x is not the stale old block, for a BLK / REP block x hashes to the recorded
-      hash.
+      its recorded size; the block of the stripe is the block before the step (which, for a BLK / REP block of a file not flagged
+      DAMAGED, hashes to the recorded hash) or a rebuilt block x written zero padded -- and then the file is flagged DAMAGED, or:
+      for a CHG block x is not the stale old block, for a BLK / REP block x hashes to the recorded hash.
    4. the whole run: at the end every mapped block (any state) belongs to a file flagged DAMAGED, or is the block that was on the
       disk before the run (0 when the file was absent), or is a rebuilt block written at its stripe -- which for a CHG block is NOT
       the stale old block and for a BLK / REP block hashes to the recorded hash; the exit status fails iff something is counted unrecoverable, and a file flagged DAMAGED is always
       counted (failing exit status).  4b: under PastHashInvAll, "not the block any parity level encoded at that position".
       4c: exit status 0 and PastHashInvAll: every CHG block is the block of the disk or a rebuilt block that is not the old one.
+      4d: every BLK / REP block of a file not flagged DAMAGED hashes to its recorded hash at the end of the run (any stripe).
+      4e: a file that was intact in the damaged array is not touched at all and not flagged.
 
    5. mixed arrays: a block of an ENTIRELY SYNCED stripe, in an array whose other stripes may hold pending changes, belongs at the
       end to a file flagged DAMAGED or is exactly the recorded block (the recorded vectors, the padding and collision freedom are
       asked of the synced stripes only: synced_part, collision_free_synced).
 
-   WHAT IS MISSING for the full statement (hence `_partial`): (i) at BLK positions of stripes that THEMSELVES hold pending changes
-   a block the run wrote is shown to PASS THE RECORDED HASH (statement 4), not to BE the recorded block: that last step is
-   collision freedom of the hash on that one block, which is left to the reader (for the synced stripes statement 5 and for fully
-   synced arrays C05_fix_run_sound state it with the explicit collision-freedom hypotheses); a BLK block the run did NOT write
-   (alternative 2 of statement 4) is the block that was on the disk, damaged or not: in a pending stripe check/fix flag the file
-   DAMAGED only when repair fails or marks the entry, an unreadable or hash-failing block is a bad entry and is never left as is
-   silently -- but that alternative 2 implies "passed its hash test" is not stated; (ii) the link between the
-   status:recovered tag and the flags is not stated: "reported recovered" is rendered as "not flagged DAMAGED" (4, 4b) or
-   "exit status 0" (4c); (iii) "untouched when intact" is stated for blocks only (alternative 2 of statement 4 says which blocks
-   were not rewritten, not that an intact file takes that alternative), not for sizes and time-stamps.
+   WHAT IS MISSING for the full statement (hence `_partial`): (i) at BLK positions the final block is shown to PASS THE RECORDED
+   HASH (statement 4d; written blocks up to the zero padding of handle_write), not to BE the recorded block: that last step is
+   collision freedom of the hash on that one block (for the synced stripes statement 5 and for fully synced arrays
+   C05_fix_run_sound state it with the explicit collision-freedom hypotheses); (ii) the link between the status:recovered tag and
+   the flags is not stated: "reported recovered" is rendered as "not flagged DAMAGED" (4, 4b, 4d) or "exit status 0" (4c);
+   (iii) the recorded SIZE of the files that the run rewrites is not tracked (for the files it does not touch: statement 4e).
    Proofs: Fix/PendingProofs.v.  Non-vacuity and the findings: Fix/PendingExamples.v. *)
 From Coq Require Import NArith ZArith List Bool Arith Lia.
 From Snap.Array Require Import ArrayDefs SyncModel.
@@ -91,7 +89,9 @@ Theorem C05_pending_fix_step :
           (fs_find (r_fs s') j (cf_name f) = None /\ fl_damaged (get_fl (r_flags s') (j, cf_name f)) = true /\ S idx = length (cf_blocks f))
           \/ ((forall i, i <> idx -> i < nblocks bs (cf_size f) -> fblk (r_fs s') j (cf_name f) i = fblk (r_fs s) j (cf_name f) i)
               /\ (idx < nblocks bs (cf_size f) ->
-                    fblk (r_fs s') j (cf_name f) idx = fblk (r_fs s) j (cf_name f) idx
+                    (fblk (r_fs s') j (cf_name f) idx = fblk (r_fs s) j (cf_name f) idx
+                     /\ (fb_state b <> SChg ->
+                         fl_damaged (get_fl (r_flags s') (j, cf_name f)) = true \/ hash_ok hashf bs f idx b (fblk (r_fs s) j (cf_name f) idx) = true))
                     \/ exists x, fblk (r_fs s') j (cf_name f) idx = wbv padz truncf bs f idx x
                                  /\ (fb_state b = SChg ->
                                      fl_damaged (get_fl (r_flags s') (j, cf_name f)) = true \/ NotOld hashf padz bs j f idx b x)
@@ -112,7 +112,8 @@ Theorem C05_pending_fix_run_chg :
     /\ (forall key, fl_damaged (get_fl (r_flags (out_st out)) key) = true -> r_unrec (out_st out) <> 0 /\ out_fail out = true)
     /\ forall p j f i b, slot_of c p j = SFile f i b ->
          fl_damaged (get_fl (r_flags (out_st out)) (j, cf_name f)) = true
-         \/ fblk (r_fs (out_st out)) j (cf_name f) i = fblk fs j (cf_name f) i
+         \/ (fblk (r_fs (out_st out)) j (cf_name f) i = fblk fs j (cf_name f) i
+             /\ (fb_state b <> SChg -> hash_ok hashf bs f i b (fblk fs j (cf_name f) i) = true))
          \/ exists x, fblk (r_fs (out_st out)) j (cf_name f) i = wbv padz truncf bs f i x /\ (fb_state b = SChg -> NotOld hashf padz bs j f i b x)
                       /\ (fb_state b <> SChg -> hash_ok hashf bs f i b x = true).
 Proof. exact run_fix_chg_pending. Qed.
@@ -150,6 +151,38 @@ Theorem C05_pending_fix_run_exit0_never_old_partial :
                    /\ forall l v, nth p (nth l par []) PNone = PEnc v -> x <> vnth v j.
 Proof. exact run_fix_exit0_chg_not_old_partial. Qed.
 Print Assumptions C05_pending_fix_run_exit0_never_old_partial.
+
+(* 4d. the blocks WITH a recorded hash (BLK, REP), in ANY stripe (pending or not), whatever the damage and the parity: at the end
+       of the run the file is flagged DAMAGED (hence counted, failing exit status: statement 4), or the block is a block x that
+       hashes to the recorded hash -- the block of the disk left as it was, or a rebuilt block written zero padded.  No collision
+       hypothesis, no PastHashInvAll. *)
+Theorem C05_pending_fix_run_blk_verified :
+  forall (hashf : bid -> N -> hval) (padz : bid -> N -> bool) (truncf : bid -> N -> bid) (bs : N) (nlev : nat)
+         (newino : nat -> N -> N) (now : Z) (o : copts) (c : content) (bm : nat) (fs : list (option fsdisk)) (par : parity) (objs : list obj),
+    plain nlev o -> co_fix o = true -> geom bs c bm -> c_blockmax c = bm ->
+    length fs = length (c_disks c) -> nlev <= length par -> objs_ok c objs ->
+    let out := check_run hashf padz truncf bs nlev false newino now o c par fs objs (seq 0 bm) in
+    forall p j f i b, slot_of c p j = SFile f i b -> fb_state b <> SChg ->
+      fl_damaged (get_fl (r_flags (out_st out)) (j, cf_name f)) = true
+      \/ exists x, (fblk (r_fs (out_st out)) j (cf_name f) i = x \/ fblk (r_fs (out_st out)) j (cf_name f) i = wbv padz truncf bs f i x)
+                   /\ hash_ok hashf bs f i b x = true.
+Proof. exact run_fix_blk_verified. Qed.
+Print Assumptions C05_pending_fix_run_blk_verified.
+
+(* 4e. a file that was intact in the damaged array (not larger than recorded, every mapped block readable and, when it has a
+       recorded hash, hashing to it) is not touched -- content, size, time-stamp, inode -- and not flagged, whatever happens to the
+       other files of its stripes *)
+Theorem C05_pending_fix_run_intact_untouched :
+  forall (hashf : bid -> N -> hval) (padz : bid -> N -> bool) (truncf : bid -> N -> bid) (bs : N) (nlev : nat)
+         (newino : nat -> N -> N) (now : Z) (o : copts) (c : content) (bm : nat) (fs : list (option fsdisk)) (par : parity) (objs : list obj),
+    plain nlev o -> co_fix o = true -> geom bs c bm -> c_blockmax c = bm ->
+    length fs = length (c_disks c) -> nlev <= length par -> objs_ok c objs ->
+    let out := check_run hashf padz truncf bs nlev false newino now o c par fs objs (seq 0 bm) in
+    forall p j f i b, slot_of c p j = SFile f i b -> intact_pending hashf bs c fs par j f ->
+      fs_find (r_fs (out_st out)) j (cf_name f) = fs_find fs j (cf_name f)
+      /\ fl_damaged (get_fl (r_flags (out_st out)) (j, cf_name f)) = false.
+Proof. exact run_fix_intact_untouched. Qed.
+Print Assumptions C05_pending_fix_run_intact_untouched.
 
 (* 5. mixed arrays: the blocks of the entirely synced stripes *)
 Theorem C05_pending_fix_run_synced_stripes :
@@ -202,6 +235,11 @@ Example C05_pending_example_mixed :
   fl_damaged (get_fl (r_flags (out_st out)) (0, 2%N)) = true \/ fblk (r_fs (out_st out)) 0 2%N 0 = 12%N.
 Proof. exact px_fix_run_synced_stripes. Qed.
 Print Assumptions C05_pending_example_mixed.
+Example C05_pending_example_intact :
+  let out := check_run w_hashf w_padz w_truncf 1024 2 false w_newino 999 x_fix px_c px_par px_fs2 [] (seq 0 2) in
+  fs_find (r_fs (out_st out)) 1 3%N = fs_find px_fs2 1 3%N /\ fl_damaged (get_fl (r_flags (out_st out)) (1, 3%N)) = false.
+Proof. exact px_fix_run_intact. Qed.
+Print Assumptions C05_pending_example_intact.
 Example C05_pending_example_mixed_computed :
   let out := check_run w_hashf w_padz w_truncf 1024 2 false w_newino 999 x_fix px_c px_par px_fs2 [] (seq 0 2) in
   fs_find (r_fs (out_st out)) 0 2%N = Some (mkFF 2 1024 100 0 902 [12%N])
